@@ -42,6 +42,25 @@ where
     crate::nuts::draw(math, init, rng, hamiltonian, options, collector)
 }
 
+/// `Progress` is `#[non_exhaustive]`; storage backends driven directly need to build one.
+pub fn make_progress(
+    draw: u64,
+    chain: u64,
+    diverging: bool,
+    tuning: bool,
+    step_size: f64,
+    num_steps: u64,
+) -> crate::Progress {
+    crate::Progress {
+        draw,
+        chain,
+        diverging,
+        tuning,
+        step_size,
+        num_steps,
+    }
+}
+
 pub fn logaddexp(a: f64, b: f64) -> f64 {
     crate::math::logaddexp(a, b)
 }
